@@ -166,3 +166,796 @@ Proof.
   specialize (Hz _ eq_refl). destruct (n0 <? 0)%Z eqn:L; [apply Z.ltb_lt in L; lia|].
   rewrite <- (H _ eq_refl). symmetry. apply Z2Nat.id. exact Hz.
 Qed.
+
+(* ================================================================= 3. the translated _broadcast_shape_dims *)
+(* generic facts about the loop combinator of the translation *)
+Lemma py_for_ext {A S} (l : list A) (b1 b2 : A -> S -> step S) :
+  (forall x s, b1 x s = b2 x s) -> forall s, py_for l s b1 = py_for l s b2.
+Proof. intro E. induction l as [|x l IH]; intro s; simpl; [reflexivity|]. rewrite E. destruct (b2 x s); auto. Qed.
+
+Lemma py_for_map {A B S} (f : A -> B) (l : list A) (body : B -> S -> step S) : forall s,
+  py_for (map f l) s body = py_for l s (fun x => body (f x)).
+Proof. induction l as [|x l IH]; intro s; simpl; [reflexivity|]. destruct (body (f x) s); auto. Qed.
+
+Lemma py_for_snoc_map {A B} (f : A -> B) (l : list A) (body : A -> list B -> step (list B)) :
+  (forall x st, body x st = Next (st ++ [f x])) -> forall st, py_for l st body = Some (st ++ map f l).
+Proof.
+  intro E. induction l as [|x l IH]; intro st; simpl.
+  - now rewrite app_nil_r.
+  - rewrite E, IH, <- app_assoc. reflexivity.
+Qed.
+
+Fixpoint all_some {A} (l : list (option A)) : option (list A) :=
+  match l with
+  | [] => Some []
+  | Some x :: r => match all_some r with Some xs => Some (x :: xs) | None => None end
+  | None :: _ => None
+  end.
+
+Lemma py_for_snoc_opt {A B} (g : A -> option B) (l : list A) (body : A -> list B -> step (list B)) :
+  (forall x st, body x st = match g x with Some y => Next (st ++ [y]) | None => Abort end) ->
+  forall st, py_for l st body = match all_some (map g l) with Some ys => Some (st ++ ys) | None => None end.
+Proof.
+  intro E. induction l as [|x l IH]; intro st; simpl.
+  - now rewrite app_nil_r.
+  - rewrite E. destruct (g x) as [y|]; [|reflexivity]. rewrite IH.
+    destruct (all_some (map g l)); [|reflexivity]. now rewrite <- app_assoc.
+Qed.
+
+Lemma all_some_nth {A} (l : list (option A)) : forall r, all_some l = Some r ->
+  length r = length l /\ forall i d, i < length l -> nth i l None = Some (nth i r d).
+Proof.
+  induction l as [|[x|] l IH]; intros r H; simpl in H; try discriminate.
+  - injection H as <-. split; [reflexivity|]. intros i d Hi. simpl in Hi. lia.
+  - destruct (all_some l) as [xs|]; [|discriminate]. injection H as <-.
+    destruct (IH _ eq_refl) as [Hl Hn]. split; [simpl; lia|].
+    intros [|i] d Hi; simpl; [reflexivity|]. apply Hn. simpl in Hi. lia.
+Qed.
+
+(* a readable form of the loop body: how one more operand dim [d] updates the resolved dim of an axis *)
+Definition resolve_step (resolved d : dim) : step dim :=
+  match d with
+  | DInt k =>
+      if Z.eqb k 1 then Next resolved else
+      match resolved with
+      | DInt n => if Z.eqb n 1 then Next (DInt k) else if Z.eqb n k then Next resolved else Abort
+      | _ => Next (DInt k)
+      end
+  | _ =>
+      match resolved with
+      | DInt n => if Z.eqb n 1 then Next d else Next resolved
+      | _ => if tok_eqb (dim_token resolved) (dim_token d) then Next resolved else Abort
+      end
+  end.
+Definition pad_to (R : nat) (s : list dim) : list dim := repeat (DInt 1) (R - length s) ++ s.
+Definition resolve_axis (padded : list (list dim)) (axis : nat) : option dim :=
+  py_for (map (fun s => nth axis s DUnk) padded) (DInt 1) (fun d res => resolve_step res d).
+Definition bsd_spec (shapes : list (list dim)) : option (list dim) :=
+  match shapes with
+  | [] => None
+  | _ =>
+    let R := list_max_nat (map (@length dim) shapes) in
+    if Nat.eqb R 0 then Some [] else
+    all_some (map (resolve_axis (map (pad_to R) shapes)) (seq 0 R))
+  end.
+
+(* the translated function IS this readable form (re-checked against every regenerated GenShapes.v) *)
+Theorem broadcast_shape_dims_eq shapes : broadcast_shape_dims shapes = bsd_spec shapes.
+Proof.
+  unfold broadcast_shape_dims, bsd_spec, pydim. destruct shapes as [|s0 shapes]; [reflexivity|].
+  set (S := s0 :: shapes). cbv zeta.
+  set (R := list_max_nat (map (fun shape : list dim => length shape) S)).
+  change (list_max_nat (map (@length dim) S)) with R.
+  destruct (Nat.eqb R 0); [reflexivity|].
+  erewrite (py_for_snoc_map (pad_to R)).
+  2:{ intros x st. cbv beta. unfold pad_to. destruct (Nat.ltb_spec (length x) R) as [L|L]; [reflexivity|].
+      replace (R - length x) with 0 by lia. reflexivity. }
+  simpl app.
+  erewrite (py_for_snoc_opt (resolve_axis (map (pad_to R) S))).
+  2:{ intros axis st. cbv beta. unfold resolve_axis. rewrite py_for_map.
+      erewrite py_for_ext; [reflexivity|]. intros shape res. cbv beta zeta.
+      destruct (nth axis shape DUnk) as [k| |], res as [n| |]; cbn;
+        repeat match goal with
+               | |- context [Z.eqb ?a ?b] => destruct (Z.eqb a b)
+               | |- context [String.eqb ?a ?b] => destruct (String.eqb a b)
+               end; reflexivity. }
+  simpl app. destruct (all_some _); reflexivity.
+Qed.
+
+(* ---- soundness of one axis.  [m] is the run-time extent of the axis of the result. *)
+Definition is_one (rho : env) (d : dim) : Prop :=
+  match d with DInt z => z = 1%Z | DSym s => rho s = 1 | DUnk => False end.
+
+Lemma resolve_step_inv rho m res d v res' vs :
+  dim_ok rho d v -> v = 1 \/ v = m ->
+  dim_ok rho res m \/ (is_one rho res /\ In m (v :: vs)) ->
+  resolve_step res d = Next res' ->
+  dim_ok rho res' m \/ (is_one rho res' /\ In m vs).
+Proof.
+  intros Hd Hv Hinv Hs.
+  destruct d as [k|s|], res as [n|t|]; cbn in Hs;
+    repeat match type of Hs with
+           | context [Z.eqb ?a ?b] => destruct (Z.eqb_spec a b)
+           | context [String.eqb ?a ?b] => destruct (String.eqb_spec a b)
+           end; try discriminate; injection Hs as <-; simpl in *; subst;
+    repeat match goal with
+           | H : _ \/ _ |- _ => destruct H
+           | H : _ /\ _ |- _ => destruct H
+           end; subst; try lia; try tauto; auto;
+    try (left; lia); try (right; split; [assumption|]; tauto).
+Qed.
+
+Lemma col_sound rho m ds vs : Forall2 (dim_ok rho) ds vs ->
+  (forall v, In v vs -> v = 1 \/ v = m) ->
+  forall res r, dim_ok rho res m \/ (is_one rho res /\ In m vs) ->
+  py_for ds res (fun d res => resolve_step res d) = Some r -> dim_ok rho r m.
+Proof.
+  induction 1 as [|d v ds vs Hd HF IH]; intros Hall res r Hinv Hp; simpl in Hp.
+  - injection Hp as <-. destruct Hinv as [H|[_ []]]. exact H.
+  - destruct (resolve_step res d) as [res'|] eqn:Es; [|discriminate].
+    apply (IH (fun x Hx => Hall x (or_intror Hx)) res' r); [|exact Hp].
+    eapply resolve_step_inv; eauto. apply Hall. left. reflexivity.
+Qed.
+
+Lemma col_sound_P rho ds vs m r : Forall2 (dim_ok rho) ds vs -> ColP vs m ->
+  py_for ds (DInt 1) (fun d res => resolve_step res d) = Some r -> dim_ok rho r m.
+Proof.
+  intros HF [H1 H2] Hp. eapply col_sound; eauto.
+  destruct H2 as [->|H2]; [left; reflexivity|right; split; [reflexivity|exact H2]].
+Qed.
+
+Lemma Forall2_nth {A B} (P : A -> B -> Prop) (l : list A) (l' : list B) da db :
+  length l = length l' -> (forall i, i < length l -> P (nth i l da) (nth i l' db)) -> Forall2 P l l'.
+Proof.
+  revert l'. induction l as [|x l IH]; intros [|y l'] Hl Hn; simpl in Hl; try discriminate; constructor.
+  - apply (Hn 0). simpl. lia.
+  - apply IH; [lia|]. intros i Hi. apply (Hn (S i)). simpl. lia.
+Qed.
+Lemma Forall2_nth_inv {A B} (P : A -> B -> Prop) (l : list A) (l' : list B) da db :
+  Forall2 P l l' -> forall i, i < length l -> P (nth i l da) (nth i l' db).
+Proof.
+  induction 1 as [|x y l l' Hxy HF IH]; intros i Hi; simpl in Hi; [lia|].
+  destruct i; simpl; [exact Hxy|]. apply IH. lia.
+Qed.
+
+Lemma F2_length {A B} (P : A -> B -> Prop) l l' : Forall2 P l l' -> length l = length l'.
+Proof. induction 1; simpl; congruence. Qed.
+
+Lemma nth_repeat_lt {A} (a d : A) n : forall i, i < n -> nth i (repeat a n) d = a.
+Proof. induction n as [|n IH]; intros i Hi; [lia|]. destruct i; simpl; [reflexivity|]. apply IH. lia. Qed.
+
+Lemma list_max_nat_ge l x : In x l -> x <= list_max_nat l.
+Proof. induction l as [|y l IH]; intros []; simpl; [subst; lia|]. specialize (IH H). lia. Qed.
+
+(* the dim of a padded annotation at [axis] and the run-time extent [R-1-axis]-th from the right agree *)
+Lemma padded_dim_ok rho R s c axis : shape_ok rho s c -> length s <= R -> axis < R ->
+  dim_ok rho (nth axis (pad_to R s) DUnk) (dim_at c (R - 1 - axis)).
+Proof.
+  intros HF HL Ha. pose proof (F2_length _ _ _ HF) as El. unfold pad_to, dim_at.
+  destruct (Nat.lt_ge_cases axis (R - length s)) as [Lt|Ge].
+  - rewrite app_nth1 by (rewrite repeat_length; exact Lt).
+    rewrite nth_repeat_lt by exact Lt. rewrite nth_overflow by (rewrite rev_length; lia). reflexivity.
+  - rewrite app_nth2 by (rewrite repeat_length; exact Ge). rewrite repeat_length.
+    rewrite rev_nth by lia.
+    replace (length c - S (R - 1 - axis)) with (axis - (R - length s)) by lia.
+    apply Forall2_nth_inv; [exact HF|lia].
+Qed.
+
+Lemma cols_ok rho R i S cs : Forall2 (shape_ok rho) S cs -> (forall s, In s S -> length s <= R) -> i < R ->
+  Forall2 (dim_ok rho) (map (fun s => nth i (pad_to R s) DUnk) S) (map (fun c => dim_at c (R - 1 - i)) cs).
+Proof.
+  induction 1 as [|s c S cs H HF IH]; intros HR Hi; simpl; constructor.
+  - apply padded_dim_ok; auto. apply HR. left. reflexivity.
+  - apply IH; auto. intros s' Hs'. apply HR. right. exact Hs'.
+Qed.
+
+(* MAIN (relational form): whenever the annotations of the operands are not false for the run-time shapes [cs] under
+   the binding [rho], and [cr] is the numpy broadcast of [cs], the merged annotation is not false for [cr]. *)
+Theorem bsd_spec_sound rho shapes cs r cr :
+  bsd_spec shapes = Some r -> Forall2 (shape_ok rho) shapes cs -> Broadcast cs cr -> shape_ok rho r cr.
+Proof.
+  intros Hb HF [Hlen Hcol]. unfold bsd_spec in Hb. destruct shapes as [|s0 shapes']; [discriminate|].
+  set (S := s0 :: shapes') in *. cbv zeta in Hb.
+  set (R := list_max_nat (map (@length dim) S)) in *.
+  assert (ER : list_max_nat (map (@length nat) cs) = R).
+  { unfold R. clear -HF. induction HF as [|s c l l' H HF' IH]; [reflexivity|]. simpl.
+    rewrite IH. now rewrite (F2_length _ _ _ H). }
+  rewrite ER in Hlen.
+  destruct (Nat.eqb_spec R 0) as [E0|N0].
+  - injection Hb as <-. rewrite E0 in Hlen. destruct cr; [constructor|discriminate].
+  - destruct (all_some_nth _ _ Hb) as [Hl Hn]. rewrite map_length, seq_length in Hl.
+    apply (Forall2_nth _ _ _ DUnk 1); [lia|]. intros i Hi. rewrite Hl in Hi.
+    specialize (Hn i DUnk). rewrite map_length, seq_length in Hn. specialize (Hn Hi).
+    rewrite (nth_indep _ None (resolve_axis (map (pad_to R) S) 0)) in Hn by (rewrite map_length, seq_length; exact Hi).
+    rewrite map_nth, seq_nth in Hn by exact Hi. rewrite Nat.add_0_l in Hn. unfold resolve_axis in Hn. rewrite map_map in Hn.
+    replace (nth i cr 1) with (dim_at cr (R - 1 - i)).
+    2:{ unfold dim_at. rewrite rev_nth by lia. f_equal. lia. }
+    eapply col_sound_P; [|apply (Hcol (R - 1 - i))|exact Hn].
+    apply cols_ok; auto. intros s Hs. apply list_max_nat_ge, in_map, Hs.
+Qed.
+
+Theorem broadcast_dims_sound rho shapes cs r cr :
+  broadcast_shape_dims shapes = Some r -> Forall2 (shape_ok rho) shapes cs -> bcast_list cs = Some cr ->
+  shape_ok rho r cr.
+Proof.
+  rewrite broadcast_shape_dims_eq. intros Hb HF Hc. eapply bsd_spec_sound; eauto. now apply bcast_list_Broadcast.
+Qed.
+
+(* the binary form: every KNOWN dim of the merged annotation equals the corresponding dim of the numpy broadcast *)
+Corollary broadcast_dims_sound2 rho a b ca cb r cr :
+  broadcast_shape_dims [a; b] = Some r -> shape_ok rho a ca -> shape_ok rho b cb -> bcast ca cb = Some cr ->
+  length r = length cr /\
+  (forall i d, nth_error r i = Some d -> forall n, denote_dim rho d = Some n -> nth_error cr i = Some n).
+Proof.
+  intros Hb Ha Hb' Hc.
+  assert (H : shape_ok rho r cr).
+  { eapply broadcast_dims_sound; eauto. rewrite bcast_list_2, bcast_nil_r. exact Hc. }
+  split; [exact (F2_length _ _ _ H)|].
+  clear -H. induction H as [|d c r cr Hd HF IH]; intros [|i] d' E n Hn; simpl in *; try discriminate.
+  - injection E as <-. f_equal. symmetry. eapply dim_ok_denote; eauto.
+  - eapply IH; eauto.
+Qed.
+
+(* the merged annotation may say LESS: symbols that cannot be identified make the function give up *)
+Example bsd_gives_up : broadcast_shape_dims [[DSym "B"]; [DSym "C"]] = None. Proof. reflexivity. Qed.
+Example bsd_keeps_concrete : broadcast_shape_dims [[DSym "B"; DInt 1]; [DInt 3; DUnk]] = Some [DInt 3; DUnk].
+Proof. reflexivity. Qed.
+Example bsd_rank : broadcast_shape_dims [[DInt 3]; [DInt 1; DInt 1]] = Some [DInt 1; DInt 3]. Proof. reflexivity. Qed.
+
+(* ================================================================= 4. post-processing only weakens *)
+Lemma dim_is_known_true d : dim_is_known d = true.
+Proof. destruct d; reflexivity. Qed.
+Lemma normalize_dim_id d : normalize_dim d = d.
+Proof. destruct d; reflexivity. Qed.
+
+Lemma py_for_pair_snoc {A B C} (f : A -> B) (g : A -> C -> C) (l : list A) (body : A -> C * list B -> step (C * list B)) :
+  (forall x c acc, body x (c, acc) = Next (g x c, acc ++ [f x])) ->
+  forall c acc, py_for l (c, acc) body = Some (fold_left (fun c x => g x c) l c, acc ++ map f l).
+Proof.
+  intro E. induction l as [|x l IH]; intros c acc; simpl.
+  - now rewrite app_nil_r.
+  - rewrite E, IH, <- app_assoc. reflexivity.
+Qed.
+
+(* readable form of the translated _unknown_shape_like on dims of an ir.Shape *)
+Definition usl_spec (dims : option (list dim)) (force : bool) : option (list dim) :=
+  match dims with
+  | Some (d :: l) => if force then Some (map (fun _ => DUnk) (d :: l)) else None
+  | _ => None
+  end.
+
+Theorem unknown_shape_like_eq dims force : unknown_shape_like dims force = usl_spec dims force.
+Proof.
+  unfold unknown_shape_like, usl_spec, pydim. destruct dims as [[|d l]|]; try reflexivity. cbv zeta.
+  destruct force.
+  - erewrite (py_for_pair_snoc (fun _ : dim => DUnk) (fun _ _ => true)); [|intros; reflexivity].
+    replace (fold_left (fun (_ : bool) (_ : dim) => true) (d :: l) false) with true; [reflexivity|].
+    simpl. generalize l. intro l0. induction l0; simpl; auto.
+  - erewrite (py_for_pair_snoc (fun x : dim => x) (fun _ c => c)).
+    2:{ intros x c acc. cbv beta iota. rewrite dim_is_known_true, normalize_dim_id. reflexivity. }
+    replace (fold_left (fun (c : bool) (_ : dim) => c) (d :: l) false) with false; [reflexivity|].
+    generalize (d :: l). intro l0. induction l0; simpl; auto.
+Qed.
+
+Definition weaker_dim (d d' : dim) : Prop := d' = DUnk \/ d' = d.
+
+Lemma weaker_all_unknown l : Forall2 weaker_dim l (map (fun _ => DUnk) l).
+Proof. induction l; simpl; constructor; auto. left. reflexivity. Qed.
+
+Theorem unknown_shape_like_weakens dims force l' : unknown_shape_like dims force = Some l' ->
+  exists l, dims = Some l /\ Forall2 weaker_dim l l'.
+Proof.
+  rewrite unknown_shape_like_eq. unfold usl_spec. destruct dims as [[|d l]|]; try discriminate.
+  destruct force; [|discriminate]. intro H. injection H as <-. exists (d :: l). split; [reflexivity|].
+  apply (weaker_all_unknown (d :: l)).
+Qed.
+
+(* outside Loop/Scan bodies the loosening is the identity on annotations that come from an ir.Shape *)
+Theorem unknown_shape_like_unforced dims : unknown_shape_like dims false = None.
+Proof. rewrite unknown_shape_like_eq. destruct dims as [[|d l]|]; reflexivity. Qed.
+(* inside Loop/Scan bodies annotations become rank-only *)
+Theorem unknown_shape_like_forced d l : unknown_shape_like (Some (d :: l)) true = Some (repeat DUnk (S (length l))).
+Proof.
+  rewrite unknown_shape_like_eq. simpl. f_equal. f_equal. induction l; simpl; congruence.
+Qed.
+
+(* hand model of _loosen_graph_value_shapes as a function on annotation tables.  [io] = names of the graph's own
+   inputs and outputs, [produced] = names of the values the pass visits (node outputs; initializers when forced) *)
+Definition annot := string -> option (list dim).
+Definition loosen (io produced : list string) (force : bool) (a : annot) : annot :=
+  fun v =>
+    if str_mem v io then a v
+    else if str_mem v produced then
+      match unknown_shape_like (a v) force with Some s => Some s | None => a v end
+    else a v.
+
+Theorem loosen_io_untouched io produced force a v : str_mem v io = true -> loosen io produced force a v = a v.
+Proof. unfold loosen. now intros ->. Qed.
+
+Theorem loosen_weakens io produced force a v :
+  match loosen io produced force a v with
+  | Some l' => exists l, a v = Some l /\ Forall2 weaker_dim l l'
+  | None => a v = None
+  end.
+Proof.
+  unfold loosen. assert (Hid : match a v with Some l' => exists l, a v = Some l /\ Forall2 weaker_dim l l' | None => a v = None end).
+  { destruct (a v) as [l|]; [|reflexivity]. exists l. split; [reflexivity|]. induction l; constructor; auto. right. reflexivity. }
+  destruct (str_mem v io); [exact Hid|]. destruct (str_mem v produced); [|exact Hid].
+  destruct (unknown_shape_like (a v) force) as [s|] eqn:E; [|exact Hid].
+  exact (unknown_shape_like_weakens _ _ _ E).
+Qed.
+
+(* the form of the task statement: every dim of the new annotation is unknown or the old dim at the same axis *)
+Lemma weaker_nth l l' : Forall2 weaker_dim l l' -> forall i d', nth_error l' i = Some d' ->
+  d' = DUnk \/ nth_error l i = Some d'.
+Proof.
+  induction 1 as [|d d2 l l2 Hd F IH]; intros [|i] d' Hn; simpl in *; try discriminate.
+  - injection Hn as <-. destruct Hd as [->| ->]; auto.
+  - eauto.
+Qed.
+
+Corollary loosen_weakens_dim io produced force a v l' i d' :
+  loosen io produced force a v = Some l' -> nth_error l' i = Some d' ->
+  d' = DUnk \/ exists l, a v = Some l /\ length l = length l' /\ nth_error l i = Some d'.
+Proof.
+  intros H Hn. pose proof (loosen_weakens io produced force a v) as W. rewrite H in W.
+  destruct W as (l & E & F). destruct (weaker_nth _ _ F _ _ Hn) as [->|Hd]; [left; reflexivity|right].
+  exists l. repeat split; auto. exact (F2_length _ _ _ F).
+Qed.
+
+(* weakening preserves truth *)
+Lemma weaker_ok rho l l' c : Forall2 weaker_dim l l' -> shape_ok rho l c -> shape_ok rho l' c.
+Proof.
+  intro F. revert c. induction F as [|d d2 l l2 Hd F IH]; intros c H; inversion H; subst; constructor.
+  - destruct Hd as [->| ->]; simpl; auto.
+  - apply IH. assumption.
+Qed.
+Theorem loosen_preserves_truth rho io produced force a v c :
+  oshape_ok rho (a v) c -> oshape_ok rho (loosen io produced force a v) c.
+Proof.
+  intro H. pose proof (loosen_weakens io produced force a v) as W.
+  destruct (loosen io produced force a v) as [l'|]; [|exact I].
+  destruct W as (l & E & F). rewrite E in H. simpl in *. eapply weaker_ok; eauto.
+Qed.
+
+(* ================================================================= 5. _refresh_elementwise_output_shape (hand model) *)
+(* an operand of an elementwise node as the pass sees it *)
+Record operand := mkOp {
+  op_shape : option (list dim);      (* declared shape, None = no shape *)
+  op_payload : option nat;           (* number of elements of its constant payload, None = not a constant *)
+  op_init : bool }.                  (* is a graph initializer *)
+Definition all_int_one (s : list dim) : bool :=
+  forallb (fun d => match d with DInt 1 => true | _ => false end) s.
+(* _is_scalar_const_value: ONE element, ANY rank *)
+Definition is_scalar_const (o : operand) : bool :=
+  match op_payload o with
+  | Some n => Nat.eqb n 1
+  | None => op_init o && match op_shape o with Some s => all_int_one s | None => false end
+  end.
+(* _elementwise_shape_source *)
+Definition shape_source (ins : list operand) : option operand :=
+  match find (fun o => negb (is_scalar_const o)) ins with Some o => Some o | None => hd_error ins end.
+Definition candidates (ins : list operand) : list (list dim) :=
+  flat_map (fun o => if is_scalar_const o then [] else match op_shape o with Some s => [s] | None => [] end) ins.
+(* new annotation of the node's first output; [ins] are the present (non-None) inputs, [out] the old annotation *)
+Definition refresh (ins : list operand) (out : option (list dim)) : option (list dim) :=
+  match shape_source ins with
+  | None => out
+  | Some src =>
+      let out1 := match op_shape src with Some s => Some s | None => out end in
+      match broadcast_shape_dims (candidates ins) with Some mg => Some mg | None => out1 end
+  end.
+
+(* run-time situation of a node: every operand paired with its run-time shape *)
+Definition operands_ok (rho : env) (ps : list (operand * list nat)) : Prop :=
+  forall o c, In (o, c) ps ->
+    oshape_ok rho (op_shape o) c /\ (is_scalar_const o = true -> Forall (fun x => x = 1) c).
+
+Definition refresh_sound_statement : Prop :=
+  forall rho ps out cr,
+    operands_ok rho ps -> bcast_list (map snd ps) = Some cr -> oshape_ok rho out cr ->
+    oshape_ok rho (refresh (map fst ps) out) cr.
+
+(* REFUTED: Add(x:[3], c:[1,1] constant) annotated [1,3] is re-annotated [3] *)
+Definition refresh_witness : list (operand * list nat) :=
+  [ (mkOp (Some [DInt 3]) None false, [3]);
+    (mkOp (Some [DInt 1; DInt 1]) (Some 1) true, [1; 1]) ].
+Example refresh_witness_value :
+  refresh (map fst refresh_witness) (Some [DInt 1; DInt 3]) = Some [DInt 3]
+  /\ bcast_list (map snd refresh_witness) = Some [1; 3].
+Proof. split; vm_compute; reflexivity. Qed.
+
+Theorem refresh_sound_refuted : ~ refresh_sound_statement.
+Proof.
+  intro H. specialize (H (fun _ => 1) refresh_witness (Some [DInt 1; DInt 3]) [1; 3]).
+  assert (Hok : operands_ok (fun _ => 1) refresh_witness).
+  { intros o c [E|[E|[]]]; injection E as <- <-; (split; [simpl; repeat constructor|]).
+    - intro E; discriminate E.
+    - intros _. repeat constructor. }
+  specialize (H Hok eq_refl). 
+  assert (Hout : oshape_ok (fun _ => 1) (Some [DInt 1; DInt 3]) [1; 3]) by (simpl; repeat constructor).
+  specialize (H Hout). vm_compute in H. inversion H as [|? ? ? ? _ Hl]. inversion Hl.
+Qed.
+
+(* a second, independent failure of the full statement: when the symbols of the kept operands cannot be merged the
+   output keeps the shape copied from the first kept operand *)
+Definition refresh_witness_sym : list (operand * list nat) :=
+  [ (mkOp (Some [DSym "B"]) None false, [1]); (mkOp (Some [DSym "C"]) None false, [3]) ].
+Theorem refresh_sound_refuted_symbols :
+  exists rho out cr, operands_ok rho refresh_witness_sym /\ bcast_list (map snd refresh_witness_sym) = Some cr /\
+    oshape_ok rho out cr /\ ~ oshape_ok rho (refresh (map fst refresh_witness_sym) out) cr.
+Proof.
+  exists (fun s => if String.eqb s "B" then 1 else 3), None, [3]. repeat split.
+  - destruct H as [E|[E|[]]]; injection E as <- <-; simpl; repeat constructor.
+  - destruct H as [E|[E|[]]]; injection E as <- <-; simpl; intro; discriminate.
+  - vm_compute. intro H. inversion H as [|? ? ? ? Hd _]. discriminate Hd.
+Qed.
+
+(* ---- the exact hypothesis *)
+Definition keptb (p : operand * list nat) : bool := negb (is_scalar_const (fst p)).
+Definition kept_rank (ps : list (operand * list nat)) : nat :=
+  list_max_nat (map (fun p => length (snd p)) (filter keptb ps)).
+
+Lemma list_max_nat_le l K : (forall x, In x l -> x <= K) -> list_max_nat l <= K.
+Proof. induction l as [|y l IH]; intro H; simpl; [lia|]. pose proof (H y (or_introl eq_refl)). specialize (IH (fun x Hx => H x (or_intror Hx))). lia. Qed.
+
+Lemma dim_at_ones c k : Forall (fun x => x = 1) c -> dim_at c k = 1.
+Proof.
+  intro H. unfold dim_at. apply Forall_rev in H. revert k. induction H as [|x l Hx H IH]; intro k.
+  - apply nth_nil_1.
+  - destruct k; simpl; auto.
+Qed.
+
+Lemma candidates_ok rho ps : operands_ok rho ps ->
+  (forall o c, In (o, c) ps -> is_scalar_const o = false -> op_shape o <> None) ->
+  Forall2 (shape_ok rho) (candidates (map fst ps)) (map snd (filter keptb ps)).
+Proof.
+  induction ps as [|[o c] ps IH]; intros Hok Hdecl; simpl; [constructor|].
+  assert (Hok' : operands_ok rho ps) by (intros o' c' Hin; apply Hok; right; exact Hin).
+  assert (Hdecl' : forall o' c', In (o', c') ps -> is_scalar_const o' = false -> op_shape o' <> None)
+    by (intros o' c' Hin; apply (Hdecl o' c'); right; exact Hin).
+  unfold keptb at 1. simpl fst. destruct (is_scalar_const o) eqn:Es; simpl; [apply IH; auto|].
+  destruct (op_shape o) as [s|] eqn:Eo; [|exfalso; apply (Hdecl o c (or_introl eq_refl) Es Eo)].
+  simpl. constructor; [|apply IH; auto].
+  destruct (Hok o c (or_introl eq_refl)) as [H _]. rewrite Eo in H. exact H.
+Qed.
+
+Lemma Broadcast_drop_ones ps cr :
+  (forall o c, In (o, c) ps -> is_scalar_const o = true -> Forall (fun x => x = 1) c /\ length c <= kept_rank ps) ->
+  Broadcast (map snd ps) cr -> Broadcast (map snd (filter keptb ps)) cr.
+Proof.
+  intros Hs [Hl Hc]. split.
+  - rewrite Hl. rewrite !map_map. apply Nat.le_antisymm.
+    + apply list_max_nat_le. intros x Hx. apply in_map_iff in Hx. destruct Hx as ([o c] & <- & Hin). simpl.
+      destruct (is_scalar_const o) eqn:Es.
+      * destruct (Hs o c Hin Es) as [_ Hr]. unfold kept_rank in Hr. exact Hr.
+      * apply list_max_nat_ge. apply in_map_iff. exists (o, c). split; [reflexivity|].
+        apply filter_In. split; [exact Hin|]. unfold keptb. simpl. now rewrite Es.
+    + apply list_max_nat_le. intros x Hx. apply in_map_iff in Hx. destruct Hx as (p & <- & Hin).
+      apply filter_In in Hin. destruct Hin as [Hin _]. apply list_max_nat_ge. apply in_map_iff. exists p. auto.
+  - intro k. destruct (Hc k) as [H1 H2]. split.
+    + intros x Hx. apply H1. rewrite map_map in *. apply in_map_iff in Hx. destruct Hx as (p & <- & Hin).
+      apply filter_In in Hin. destruct Hin as [Hin _]. apply in_map_iff. exists p. auto.
+    + destruct H2 as [H2|H2]; [left; exact H2|]. rewrite map_map in *. apply in_map_iff in H2.
+      destruct H2 as ([o c] & E & Hin). simpl in E. destruct (is_scalar_const o) eqn:Es.
+      * left. destruct (Hs o c Hin Es) as [Hones _]. rewrite <- E. apply dim_at_ones. exact Hones.
+      * right. apply in_map_iff. exists (o, c). split; [exact E|]. apply filter_In. split; [exact Hin|].
+        unfold keptb. simpl. now rewrite Es.
+Qed.
+
+(* PARTIAL: the refreshed annotation is true whenever every kept operand has a declared shape, the kept annotations
+   can be merged, and no skipped ("scalar constant") operand has a higher rank than all kept operands *)
+Theorem refresh_sound_partial rho ps out cr :
+  operands_ok rho ps ->
+  (forall o c, In (o, c) ps -> is_scalar_const o = false -> op_shape o <> None) ->
+  (forall o c, In (o, c) ps -> is_scalar_const o = true -> length c <= kept_rank ps) ->
+  broadcast_shape_dims (candidates (map fst ps)) <> None ->
+  bcast_list (map snd ps) = Some cr ->
+  oshape_ok rho (refresh (map fst ps) out) cr.
+Proof.
+  intros Hok Hdecl Hrank Hm Hb. unfold refresh.
+  destruct (shape_source (map fst ps)) as [src|] eqn:Esrc.
+  2:{ exfalso. apply Hm. destruct ps; [reflexivity|]. unfold shape_source in Esrc. simpl in Esrc.
+      destruct (negb (is_scalar_const (fst p))); [discriminate|].
+      destruct (find _ _); discriminate. }
+  cbv zeta. destruct (broadcast_shape_dims (candidates (map fst ps))) as [mg|] eqn:Eb; [|contradiction].
+  simpl. eapply bsd_spec_sound; [rewrite <- broadcast_shape_dims_eq; exact Eb|apply candidates_ok; auto|].
+  apply Broadcast_drop_ones; [|apply bcast_list_Broadcast; exact Hb].
+  intros o c Hin Es. split; [apply (Hok o c Hin); exact Es|apply (Hrank o c Hin Es)].
+Qed.
+
+(* non-vacuity: the hypotheses hold for Add(x:[2,3], c:[1,1] constant), and the conclusion is informative *)
+Example refresh_partial_nonvacuous :
+  let ps := [ (mkOp (Some [DInt 2; DSym "N"]) None false, [2; 3]); (mkOp (Some [DInt 1; DInt 1]) (Some 1) true, [1; 1]) ] in
+  refresh (map fst ps) None = Some [DInt 2; DSym "N"] /\ kept_rank ps = 2 /\ bcast_list (map snd ps) = Some [2; 3].
+Proof. repeat split; vm_compute; reflexivity. Qed.
+
+(* EXACTNESS of the rank hypothesis: if a skipped operand has a higher rank than every kept operand, whatever the
+   pass writes from the kept operands has the wrong rank *)
+Lemma bsd_spec_length shapes r : bsd_spec shapes = Some r -> length r = list_max_nat (map (@length dim) shapes).
+Proof.
+  unfold bsd_spec. destruct shapes as [|s0 shapes']; [discriminate|]. cbv zeta.
+  set (R := list_max_nat (map (@length dim) (s0 :: shapes'))).
+  destruct (Nat.eqb_spec R 0) as [E|N]; intro H.
+  - injection H as <-. now rewrite E.
+  - destruct (all_some_nth _ _ H) as [Hl _]. now rewrite map_length, seq_length in Hl.
+Qed.
+
+Lemma shape_ok_map_length rho S cs : Forall2 (shape_ok rho) S cs -> map (@length dim) S = map (@length nat) cs.
+Proof. induction 1 as [|s c S cs H HF IH]; simpl; [reflexivity|]. now rewrite IH, (F2_length _ _ _ H). Qed.
+
+Theorem refresh_rank_hypothesis_exact rho ps out cr mg o c :
+  operands_ok rho ps ->
+  (forall o c, In (o, c) ps -> is_scalar_const o = false -> op_shape o <> None) ->
+  In (o, c) ps -> is_scalar_const o = true -> kept_rank ps < length c ->
+  broadcast_shape_dims (candidates (map fst ps)) = Some mg ->
+  bcast_list (map snd ps) = Some cr ->
+  refresh (map fst ps) out = Some mg /\ ~ shape_ok rho mg cr.
+Proof.
+  intros Hok Hdecl Hin Es Hlt Eb Hb. split.
+  - unfold refresh. destruct (shape_source (map fst ps)) eqn:Esrc.
+    + cbv zeta. now rewrite Eb.
+    + exfalso. destruct ps as [|p ps']; [destruct Hin|]. unfold shape_source in Esrc. simpl in Esrc.
+      destruct (negb (is_scalar_const (fst p))); [discriminate|]. destruct (find _ _); discriminate.
+  - intro Hs. apply F2_length in Hs.
+    rewrite broadcast_shape_dims_eq in Eb. apply bsd_spec_length in Eb.
+    rewrite (shape_ok_map_length rho _ _ (candidates_ok rho ps Hok Hdecl)) in Eb.
+    destruct (bcast_list_Broadcast _ _ Hb) as [Hl _].
+    assert (length c <= length cr).
+    { rewrite Hl. apply list_max_nat_ge. rewrite map_map. apply in_map_iff. exists (o, c). auto. }
+    unfold kept_rank in Hlt. rewrite map_map in Eb. lia.
+Qed.
+
+(* ---- the repaired pass (proposed: do not skip one-element constants, they broadcast like any other operand).
+   harness/c08.py probes the real code on the witness to decide which of the two models the tree implements. *)
+Definition candidates_all (ins : list operand) : list (list dim) :=
+  flat_map (fun o => match op_shape o with Some s => [s] | None => [] end) ins.
+Definition refresh_fixed (ins : list operand) (out : option (list dim)) : option (list dim) :=
+  match shape_source ins with
+  | None => out
+  | Some src =>
+      let out1 := match op_shape src with Some s => Some s | None => out end in
+      match broadcast_shape_dims (candidates_all ins) with Some mg => Some mg | None => out1 end
+  end.
+Definition refresh_gen (skip_scalars : bool) := if skip_scalars then refresh else refresh_fixed.
+
+Lemma candidates_all_ok rho ps : operands_ok rho ps ->
+  (forall o c, In (o, c) ps -> op_shape o <> None) ->
+  Forall2 (shape_ok rho) (candidates_all (map fst ps)) (map snd ps).
+Proof.
+  induction ps as [|[o c] ps IH]; intros Hok Hdecl; simpl; [constructor|].
+  destruct (op_shape o) as [s|] eqn:Eo; [|exfalso; apply (Hdecl o c (or_introl eq_refl) Eo)].
+  simpl. constructor.
+  - destruct (Hok o c (or_introl eq_refl)) as [H _]. rewrite Eo in H. exact H.
+  - apply IH; [intros o' c' Hin; apply Hok; right; exact Hin|intros o' c' Hin; apply (Hdecl o' c'); right; exact Hin].
+Qed.
+
+Theorem refresh_fixed_sound rho ps out cr :
+  operands_ok rho ps ->
+  (forall o c, In (o, c) ps -> op_shape o <> None) ->
+  broadcast_shape_dims (candidates_all (map fst ps)) <> None ->
+  bcast_list (map snd ps) = Some cr ->
+  oshape_ok rho (refresh_fixed (map fst ps) out) cr.
+Proof.
+  intros Hok Hdecl Hm Hb. unfold refresh_fixed.
+  destruct (shape_source (map fst ps)) as [src|] eqn:Esrc.
+  2:{ exfalso. apply Hm. destruct ps; [reflexivity|]. unfold shape_source in Esrc. simpl in Esrc.
+      destruct (negb (is_scalar_const (fst p))); [discriminate|]. destruct (find _ _); discriminate. }
+  cbv zeta. destruct (broadcast_shape_dims (candidates_all (map fst ps))) as [mg|] eqn:Eb; [|contradiction].
+  simpl. eapply broadcast_dims_sound; [exact Eb|apply candidates_all_ok; auto|exact Hb].
+Qed.
+Example refresh_fixed_on_witness :
+  refresh_fixed (map fst refresh_witness) (Some [DInt 1; DInt 3]) = Some [DInt 1; DInt 3].
+Proof. vm_compute. reflexivity. Qed.
+
+(* ================================================================= 6. a checker for real exports *)
+(* For operators with an exact shape rule, when ALL operand annotations are fully static, the declared output shape
+   (when fully static) must be what the rule computes from the operand annotations. *)
+Fixpoint all_ints (ds : list dim) : option (list Z) :=
+  match ds with
+  | [] => Some []
+  | DInt z :: r => if (z <? 0)%Z then None else match all_ints r with Some l => Some (z :: l) | None => None end
+  | _ => None
+  end.
+Definition static_shape (v : vinfo) : option (list Z) :=
+  match vi_shape v with Some ds => all_ints ds | None => None end.
+Definition lookup_static (g : ograph) (name : string) : option (list Z) :=
+  match find (fun v => String.eqb (vi_name v) name) (og_inputs g ++ og_inits g ++ og_vinfos g ++ og_outputs g) with
+  | Some v => static_shape v
+  | None => None
+  end.
+
+Definition zbcast_list (l : list (list Z)) : option (list Z) :=
+  option_map (map Z.of_nat) (bcast_list (map (map Z.to_nat) l)).
+Fixpoint zlist_eqb (a b : list Z) : bool :=
+  match a, b with
+  | [], [] => true
+  | x :: a', y :: b' => Z.eqb x y && zlist_eqb a' b'
+  | _, _ => false
+  end.
+Lemma zlist_eqb_eq a : forall b, zlist_eqb a b = true -> a = b.
+Proof.
+  induction a as [|x a IH]; intros [|y b] H; simpl in H; try discriminate; [reflexivity|].
+  apply andb_prop in H. destruct H as [H1 H2]. apply Z.eqb_eq in H1. subst. f_equal. auto.
+Qed.
+
+Definition first_input_shape_ops : list string :=
+  ["Relu"; "Sigmoid"; "Tanh"; "Exp"; "Log"; "Sqrt"; "Neg"; "Abs"; "Cast"; "CastLike"; "Identity"; "Not"; "Sin"; "Cos";
+   "Tan"; "Asin"; "Acos"; "Atan"; "Sinh"; "Cosh"; "Asinh"; "Acosh"; "Atanh"; "Erf"; "Floor"; "Ceil"; "Round"; "Sign";
+   "Reciprocal"; "Softplus"; "Softsign"; "Elu"; "Selu"; "Celu"; "LeakyRelu"; "Gelu"; "HardSigmoid"; "HardSwish";
+   "Mish"; "Softmax"; "LogSoftmax"; "IsNaN"; "IsInf"; "BitwiseNot"; "ThresholdedRelu"; "Swish"; "Dropout"]%string.
+Definition broadcast_ops : list string :=
+  ["Add"; "Sub"; "Mul"; "Div"; "Pow"; "Mod"; "And"; "Or"; "Xor"; "Equal"; "Less"; "Greater"; "LessOrEqual";
+   "GreaterOrEqual"; "BitwiseAnd"; "BitwiseOr"; "BitwiseXor"; "Max"; "Min"; "Sum"; "Mean"; "Where"]%string.
+
+Definition attr_of (n : onode) (name : string) : option attr :=
+  match find (fun kv => String.eqb (fst kv) name) (on_attrs n) with Some kv => Some (snd kv) | None => None end.
+(* value of a small integer tensor produced by a Constant node of the same graph *)
+Definition const_ints (g : ograph) (name : string) : option (list Z) :=
+  match find (fun c => String.eqb (on_op c) "Constant" && match on_outs c with [o] => String.eqb o name | _ => false end)
+             (og_nodes g) with
+  | Some c => match attr_of c "value" with Some (ATensor _ _ (Some l)) => Some l | _ => None end
+  | None => None
+  end.
+Definition transpose_shape (s : list Z) (perm : list Z) : option (list Z) :=
+  if Nat.eqb (length perm) (length s) && forallb (fun p => (0 <=? p)%Z && (p <? Z.of_nat (length s))%Z) perm
+  then Some (map (fun p => nth (Z.to_nat p) s 0%Z) perm) else None.
+
+Definition std_domain (n : onode) : bool := String.eqb (on_domain n) "" || String.eqb (on_domain n) "ai.onnx".
+
+(* the rule, parameterised by where operand shapes are looked up *)
+Definition rule_on (g : ograph) (look : string -> option (list Z)) (n : onode) : option (list Z) :=
+  if negb (std_domain n) then None else
+  if str_mem (on_op n) first_input_shape_ops then
+    match on_ins n with x :: _ => look x | [] => None end
+  else if str_mem (on_op n) broadcast_ops then
+    match on_ins n with
+    | [] => None
+    | ins => match all_some (map look ins) with Some shapes => zbcast_list shapes | None => None end
+    end
+  else if String.eqb (on_op n) "Transpose" then
+    match on_ins n with
+    | [x] => match look x with
+             | Some s => match attr_of n "perm" with
+                         | Some (AInts p) => transpose_shape s p
+                         | None => Some (rev s)
+                         | _ => None
+                         end
+             | None => None
+             end
+    | _ => None
+    end
+  else if String.eqb (on_op n) "Reshape" then
+    match on_ins n with
+    | [x; t] => match look x, const_ints g t with
+                | Some _, Some l => if forallb (fun z => (0 <? z)%Z) l then Some l else None
+                | _, _ => None
+                end
+    | _ => None
+    end
+  else None.
+
+Definition node_ok (g : ograph) (n : onode) : bool :=
+  match rule_on g (lookup_static g) n, hd_error (on_outs n) with
+  | Some s, Some o => match lookup_static g o with Some d => zlist_eqb d s | None => true end
+  | _, _ => true
+  end.
+Definition annot_consistent (m : omodel) : bool :=
+  forallb (fun g => forallb (node_ok g) (og_nodes g)) (om_graphs m).
+(* diagnostics for the harness: names of the first outputs of the offending nodes *)
+Definition annot_inconsistent_at (m : omodel) : list (string * string) :=
+  flat_map (fun g => flat_map (fun n => if node_ok g n then [] else [(on_op n, hd ""%string (on_outs n))]) (og_nodes g))
+           (om_graphs m).
+Definition rule_applies (m : omodel) : nat :=
+  length (flat_map (fun g => filter (fun n => match rule_on g (lookup_static g) n, hd_error (on_outs n) with
+                                              | Some _, Some o => match lookup_static g o with Some _ => true | None => false end
+                                              | _, _ => false end) (og_nodes g)) (om_graphs m)).
+
+Theorem annot_consistent_sound m : annot_consistent m = true ->
+  forall g n s o d, In g (om_graphs m) -> In n (og_nodes g) ->
+    rule_on g (lookup_static g) n = Some s -> hd_error (on_outs n) = Some o -> lookup_static g o = Some d -> d = s.
+Proof.
+  unfold annot_consistent. intros H g n s o d Hg Hn Hr Ho Hd.
+  rewrite forallb_forall in H. specialize (H g Hg). rewrite forallb_forall in H. specialize (H n Hn).
+  unfold node_ok in H. rewrite Hr, Ho, Hd in H. now apply zlist_eqb_eq.
+Qed.
+
+(* ---- relative truth: if the run time obeys the operator rules and the operand annotations are true, then the
+   output annotation is true; iterated along the node list *)
+Lemma all_some_map_mono {A B} (f1 f2 : A -> option B) l r :
+  (forall x y, In x l -> f1 x = Some y -> f2 x = Some y) -> all_some (map f1 l) = Some r -> all_some (map f2 l) = Some r.
+Proof.
+  revert r. induction l as [|x l IH]; intros r H E; simpl in *; [exact E|].
+  destruct (f1 x) as [y|] eqn:E1; [|discriminate]. rewrite (H x y (or_introl eq_refl) E1).
+  destruct (all_some (map f1 l)) as [ys|] eqn:E2; [|discriminate].
+  rewrite (IH ys (fun x' y' Hin => H x' y' (or_intror Hin)) eq_refl). exact E.
+Qed.
+
+Lemma rule_on_mono g look1 look2 n s :
+  (forall v d, In v (on_ins n) -> look1 v = Some d -> look2 v = Some d) ->
+  rule_on g look1 n = Some s -> rule_on g look2 n = Some s.
+Proof.
+  intros H. unfold rule_on. destruct (negb (std_domain n)); [discriminate|].
+  destruct (str_mem (on_op n) first_input_shape_ops).
+  { destruct (on_ins n) as [|x r]; [discriminate|]. apply H. left. reflexivity. }
+  destruct (str_mem (on_op n) broadcast_ops).
+  { destruct (on_ins n) as [|x r] eqn:Ei; [discriminate|].
+    destruct (all_some (map look1 (x :: r))) as [shapes|] eqn:E1; [|discriminate].
+    rewrite (all_some_map_mono look1 look2 (x :: r) shapes H E1). auto. }
+  destruct (String.eqb (on_op n) "Transpose").
+  { destruct (on_ins n) as [|x [|y r]]; try discriminate.
+    destruct (look1 x) as [s1|] eqn:E1; [|discriminate]. rewrite (H x s1 (or_introl eq_refl) E1). auto. }
+  destruct (String.eqb (on_op n) "Reshape"); [|discriminate].
+  destruct (on_ins n) as [|x [|t [|z r]]]; try discriminate.
+  destruct (look1 x) as [s1|] eqn:E1; [|discriminate]. rewrite (H x s1 (or_introl eq_refl) E1). auto.
+Qed.
+
+Section RelativeTruth.
+  Variable g : ograph.
+  Variable rt : string -> list Z.          (* run-time shape of every value of the graph in one execution *)
+  Definition annot_true (v : string) : Prop := forall d, lookup_static g v = Some d -> rt v = d.
+  (* the run time implements the operator's shape rule *)
+  Definition runtime_obeys (n : onode) : Prop :=
+    forall s o, rule_on g (fun v => Some (rt v)) n = Some s -> hd_error (on_outs n) = Some o -> rt o = s.
+
+  Theorem annot_step n : node_ok g n = true -> runtime_obeys n ->
+    (forall v, In v (on_ins n) -> annot_true v) ->
+    rule_on g (lookup_static g) n <> None ->
+    forall o, hd_error (on_outs n) = Some o -> annot_true o.
+  Proof.
+    intros Hok Hrt Hins Hr o Ho d Hd. unfold node_ok in Hok.
+    destruct (rule_on g (lookup_static g) n) as [s|] eqn:Er; [|contradiction]. rewrite Ho, Hd in Hok.
+    apply zlist_eqb_eq in Hok. subst d.
+    apply (Hrt s o); [|exact Ho].
+    apply (rule_on_mono g (lookup_static g)); [|exact Er]. intros v d Hin Hl. f_equal. now apply Hins.
+  Qed.
+
+  (* names whose annotation is entailed by the annotations of [T] (graph inputs, initializers) *)
+  Fixpoint derive (nodes : list onode) (T : list string) : list string :=
+    match nodes with
+    | [] => T
+    | n :: r =>
+        let fires := forallb (fun v => str_mem v T) (on_ins n)
+                     && match rule_on g (lookup_static g) n with Some _ => true | None => false end in
+        derive r (if fires then match hd_error (on_outs n) with Some o => o :: T | None => T end else T)
+    end.
+
+  Lemma str_mem_In v T : str_mem v T = true -> In v T.
+  Proof.
+    unfold str_mem. rewrite existsb_exists. intros (x & Hx & E). apply String.eqb_eq in E. now subst.
+  Qed.
+
+  Theorem derive_true nodes : forall T,
+    (forall n, In n nodes -> node_ok g n = true) -> (forall n, In n nodes -> runtime_obeys n) ->
+    (forall v, In v T -> annot_true v) -> forall v, In v (derive nodes T) -> annot_true v.
+  Proof.
+    induction nodes as [|n r IH]; intros T Hok Hrt HT v Hv; simpl in Hv; [auto|].
+    apply (IH _ (fun n' H' => Hok n' (or_intror H')) (fun n' H' => Hrt n' (or_intror H'))) in Hv; [exact Hv|].
+    clear Hv v. intros v Hv.
+    destruct (forallb (fun v => str_mem v T) (on_ins n)) eqn:Ef; simpl in Hv; [|auto].
+    destruct (rule_on g (lookup_static g) n) as [s|] eqn:Er; [|auto].
+    destruct (hd_error (on_outs n)) as [o|] eqn:Eo; [|auto].
+    destruct Hv as [<-|Hv]; [|auto].
+    apply (annot_step n); auto.
+    - apply Hok. left. reflexivity.
+    - apply Hrt. left. reflexivity.
+    - intros x Hx. apply HT. apply str_mem_In. rewrite forallb_forall in Ef. now apply Ef.
+    - rewrite Er. discriminate.
+  Qed.
+End RelativeTruth.
+
+Definition derived_count (m : omodel) : nat :=
+  match om_graphs m with
+  | g :: _ => let T0 := map vi_name (og_inputs g ++ og_inits g) in length (derive g (og_nodes g) T0) - length T0
+  | [] => 0
+  end.
+
+(* non-vacuity of the checker: the export of jnp.maximum(x:[4], zeros((1,1))) on the unchanged tree (output declared [4]) *)
+Definition ex_model (out_shape : list dim) : omodel :=
+  mkOM 10 [(""%string, 23%Z)]
+    [mkOG 0 None [mkVI "x" 1 (Some [DInt 4])] [mkVI "c" 1 (Some [DInt 1; DInt 1])]
+       [mkON "Max" "" "n" ["x"; "c"]%string ["y"%string] []] [mkVI "y" 1 (Some out_shape)] []] [].
+Example annot_consistent_rejects : annot_consistent (ex_model [DInt 4]) = false. Proof. vm_compute. reflexivity. Qed.
+Example annot_consistent_accepts : annot_consistent (ex_model [DInt 1; DInt 4]) = true /\ rule_applies (ex_model [DInt 1; DInt 4]) = 1
+  /\ derived_count (ex_model [DInt 1; DInt 4]) = 1.
+Proof. vm_compute. auto. Qed.
